@@ -122,6 +122,13 @@ impl TreeGen<'_, '_, '_> {
                     }
                     o.children.push(page);
                 }
+                // actions and menus of the tab widget itself, anywhere between the pages
+                while self.cfg.actions && self.ch.chance(1, 4) && self.take() {
+                    self.ch.label("tree-tab-widget-with-actions");
+                    let c = if self.ch.chance(1, 2) { self.action() } else { self.menu(depth + 1) };
+                    let at = self.ch.below(o.children.len() + 1);
+                    o.children.insert(at, c);
+                }
             }
             "QStackedWidget" | "QScrollArea" | "QSplitter" => {
                 let n = if class == "QScrollArea" { self.ch.below(2) } else { self.fanout() };
